@@ -83,6 +83,16 @@ func C18(c *Ctx) {
 	deep := &gast.Grammar{Rules: []*gast.Rule{
 		{Name: "S", Expr: gast.A(gast.C(gast.S(gast.L("("), gast.Lab("a", gast.Ref("S")), gast.L(")")), gast.S(gast.L("["), gast.Lab("a", gast.Ref("S")), gast.L("]")), gast.L("a")), 1, mon.Spec{})},
 	}}
+	// code blocks that write the globalStore through a helper (no block spells the field) and return what
+	// it holds; calls without any GlobalStore option are in the mix (option-table prefixes)
+	gstore := &gast.Grammar{IndirectGlobal: true, Rules: []*gast.Rule{
+		{Name: "S", Expr: gast.A(gast.Star(gast.C(gast.Ref("W"), gast.Ref("N"), gast.A(gast.Dot(), 4, mon.Spec{R: 5, G: true}))), 1, mon.Spec{R: 5, G: true})},
+		{Name: "W", Expr: gast.A(gast.Plus(gast.Cl(gast.Chars("ab"))), 2, mon.Spec{R: 5, G: true})},
+		{Name: "N", Expr: gast.S(gast.AndC(5, mon.Spec{G: true}), gast.A(gast.Plus(gast.Cl(gast.Chars("01"))), 3, mon.Spec{R: 0, G: true}))},
+	}}
+	add(gstore, false, []string{"-optimize-parser"})
+	add(gstore.Clone(), false, nil)
+	add(gstore.Clone(), false, []string{"-optimize-parser", "-optimize-basic-latin"})
 	add(deep, false, nil)
 	add(words, false, nil)
 	add(words.Clone(), false, []string{"-optimize-parser"})
